@@ -40,7 +40,7 @@ RECORDS = {}      # name -> ordered dict field -> type
 RECORD_META = {}  # name -> dict(rest=type or None, invariant=[...])
 
 
-def record(name, _rest=None, _invariant=(), _aliases=None, **fields):
+def record(_rec_name, _rest=None, _invariant=(), _aliases=None, **fields):
     """Declare a record (object / heterogeneous dict) type.  _aliases maps read-only property
     names to the field they return (e.g. normalization -> _normalization)."""
     flds = {}
@@ -48,6 +48,7 @@ def record(name, _rest=None, _invariant=(), _aliases=None, **fields):
         flds[k] = parse_type(v) if isinstance(v, str) else v
     if _rest is not None:
         flds['__rest__'] = parse_type(_rest) if isinstance(_rest, str) else _rest
+    name = _rec_name
     if name in RECORDS and RECORDS[name] != flds:
         raise ValueError(f"record {name} redeclared differently")
     RECORDS[name] = flds
